@@ -14,6 +14,9 @@ import time
 VERIF = os.path.dirname(os.path.dirname(os.path.abspath(__file__)))
 REPO = os.environ.get("VERIF_REPO", "/repo")
 WORK = os.environ.get("VERIF_WORK") or os.path.join(VERIF, ".work")
+# evidence/ and reports/ live under OUT; the scan tools (rules/scan.py) point it at a scratch directory so that runs
+# against seeded / benign variants in scratch worktrees never touch the committed evidence of /repo itself
+OUT = os.environ.get("VERIF_OUT") or VERIF
 
 CONFIGS = {
     # id: extra defines (module + table-size defines are shared)
@@ -674,7 +677,7 @@ def term_of_cond_elem(fn, el):
 # ------------------------------------------------------------ evidence output
 
 def write_evidence(pid, tier, level, coverage, assumptions, wall, violations):
-    os.makedirs(os.path.join(VERIF, "evidence"), exist_ok=True)
+    os.makedirs(os.path.join(OUT, "evidence"), exist_ok=True)
     ev = {
         "property_id": pid,
         "tier": tier,
@@ -685,7 +688,7 @@ def write_evidence(pid, tier, level, coverage, assumptions, wall, violations):
         "wall_s": round(wall, 3),
         "violations": violations,
     }
-    p = os.path.join(VERIF, "evidence", pid + ".json")
+    p = os.path.join(OUT, "evidence", pid + ".json")
     with open(p + ".tmp", "w") as f:
         json.dump(ev, f, indent=1)
     os.replace(p + ".tmp", p)
